@@ -732,6 +732,27 @@ impl Gen {
                 *x = 0;
             }
         }
+        if self.p.prop == "C09" && self.rng.chance(1, 8) {
+            // kind classification sweep: two versions per kind, across the class boundaries and
+            // anywhere in the u16 range; replaceable kinds must displace / refuse, others coexist
+            let pk = *self.rng.pick(&self.authors);
+            let bounds = [0u16, 1, 2, 3, 4, 9999, 10000, 10001, 19999, 20000, 29999, 30000, 30001, 39999, 40000, 40001, 65535];
+            let n = self.rng.range(6, 14);
+            for _ in 0..n {
+                let mut kind = if self.rng.chance(1, 2) { *self.rng.pick(&bounds) } else { self.rng.below(65536) as u16 };
+                if kind == 5 {
+                    kind = 6;
+                }
+                let t = self.time();
+                let older_second = self.rng.chance(1, 2);
+                for v in 0..2u64 {
+                    let at = if v == 0 { t } else if older_second { t.saturating_sub(1) } else { t.saturating_add(1) };
+                    let e = EvSpec { id: self.rng.bytes32(), pk, kind, at, tags: vec![vec!["d".into(), "s".into()]], content: vec![v as u8] };
+                    self.apply_store_to_gen_model(&e);
+                    ops.push(Op::Store(e));
+                }
+            }
+        }
         while ops.len() < n_ops {
             let k = self.rng.weighted(&w);
             match OPK[k] {
